@@ -56,6 +56,11 @@ def gen(rng, k):
             script.append(dict(t=t, s=0, op='add_timer', cid=500 + i, delta=rng.choice([1000, 30000]), ret=False, script=[dict(op='send', a=a)]))
         else:
             script.append(dict(t=t, s=0, op='send', a=a))
+    if rng.random() < 0.3:
+        # cyclic application timers on the sending ECU: a re-armed timer must not postpone a buffer's time limit
+        for i in range(rng.choice([1, 2])):
+            script.append(dict(t=rng.choice([100, 900, 50000]), s=0, op='add_timer', cid=800 + i, delta=rng.choice([150000, 400000, 700000, 1000000]), ret=True))
+        script.sort(key=lambda e: e['t'])
     return dict(stacks=stacks, lat=[rng.choice([1, 500])], jit=[rng.choice([1, 400])], script=script, horizon=t + 6_500_000)
 
 
